@@ -1,7 +1,8 @@
 // Rule O: rejected updates leave the old value alone.
-//   appendalias: append(param, ...) followed by an in-place mutation of the
-//                result while the parameter is still handed back.
-//   commitlast:  no store to receiver state can reach a non-nil error return.
+//
+//	appendalias: append(param, ...) followed by an in-place mutation of the
+//	             result while the parameter is still handed back.
+//	commitlast:  no store to receiver state can reach a non-nil error return.
 package main
 
 import (
